@@ -406,7 +406,7 @@ def write_nlines(quads, ch, nquads):
 
 # ------------------------------------------------------------------ Turtle / TriG
 
-PREFIX_NAMES = ["ex", "", "ns1", "a", "x.y", "é", "p-1", "rdf", "xsd", "v_2", "A0"]
+PREFIX_NAMES = ["ex", "", "ns1", "a", "x.y", "é", "p-1", "rdf", "xsd", "v_2", "A0", "a.b"]
 BASES = ["http://example.org/base/doc", "http://example.org/base/sub/file.ttl", "http://example.org/other/",
          "http://example.org/base/doc?x=1", "http://other.example/a/b/c", "http://example.org/base/sub/deep/"]
 
@@ -1030,7 +1030,11 @@ def write_rdfxml(quads, ch, base):
     use_base = ch.flag("x_base", 0.4)
     if use_base:
         doc_base = ch.choice(BASES[:3] + [base])
-    root_lang = ch.choice(["en", "de-1996"]) if ch.flag("x_lang_inherit", 0.3) else None
+    # a language in scope for the whole document: prefer one that some literal really has, so that the
+    # literal may rely on inheritance (and every other literal must reset or override it)
+    langs = sorted({o[3] for s, p, o in triples if o[0] == "L" and o[3] is not None})
+    root_lang = (ch.choice(langs) if langs and ch.pick(4) else ch.choice(["en", "de-1996"])) \
+        if ch.flag("x_lang_inherit", 0.4) else None
     used_ids = set()
 
     def qn(iri, attr=False):
@@ -1342,8 +1346,9 @@ def write_jsonld(quads, ch, base):
             vocab = p0[: max(p0.rfind("#"), p0.rfind("/")) + 1]
         if ch.flag("j_base", 0.3):
             doc_base = ch.choice(BASES[:3] + [base])
-        if ch.flag("j_language", 0.25):
-            dlang = ch.choice(["en", "de"])
+        if ch.flag("j_language", 0.3):
+            langs = sorted({q[2][3] for q in quads if q[2][0] == "L" and q[2][3] is not None})
+            dlang = ch.choice(langs) if langs and ch.pick(4) else ch.choice(["en", "de"])
         tnames = ["name", "knows", "t1", "label", "val", "items", "kind"]
         ch.shuffle(tnames)
         for p in preds:
